@@ -400,23 +400,11 @@ def rule_rotation_structure(ctx):
 
 
 def rule_components(ctx):
-    files = ['tools.c', 'rotations.c']
-    only = {'tools.c': {'reb_simulation_imul', 'reb_simulation_iadd', 'reb_simulation_isub', 'reb_simulation_move_to_hel', 'reb_simulation_move_to_com', 'reb_simulation_com',
-                        'reb_particle_com_of_pair', 'reb_simulation_com_range', 'reb_simulation_jacobi_com'}}
-    tus = cfront.load_tus(files)
-    stats = {'groups': 0, 'samples': []}
-    for c in files:
-        tu = tus[c]
-        for name, fn in sorted(tu.funcs.items()):
-            if cfront.basename(fn.get('_locfile') or fn.get('_file')) != c:
-                continue
-            if c in only and name not in only[c]:
-                continue
-            if name in x1.ANISOTROPIC:
-                continue
-            x1.check_function(tu, fn, ctx.report, stats, 'R20.6')
-    ctx.covered('R20.6', 'x/y/z statement triples of imul/iadd/isub, move_to_hel/com, centre-of-mass helpers and rotations.c are one formula under an axis permutation',
-                stats['groups'], floor=40, samples=stats['samples'])
+    files = ['tools.c', 'rotations.c', 'particle.c']
+    stats, nfun = x1.run_files(ctx, 'R20.6', files)
+    ctx.covered('R20.6', 'x/y/z statement triples of every function of tools.c, rotations.c and particle.c (imul/iadd/isub, move_to_hel/com, centre-of-mass helpers, '
+                'rotations, orbit conversion outside the reference-plane stanzas) are one formula under an axis permutation',
+                stats['groups'], floor=85, samples=stats['samples'])
 
 
 def run(ctx):
